@@ -1,5 +1,6 @@
 import SamplyModel.Lemmas.ContextSwitch
 import SamplyModel.Lemmas.ConvCs
+import SamplyModel.Lemmas.ConvCsRun
 /-!
 # C12 — CPU-time and off-CPU accounting conserve time for every switch/sample history
 
@@ -174,12 +175,12 @@ theorem C12_conv_step_switchOut (s : Conv.St) (pid tid t : Nat) (h0 : tid ≠ 0)
           (getThread (getByPid s pid).1 (getByPid s pid).2 tid).2.2 t) := rfl
   rw [e, if_neg h0]
 
-/-- **CPU time, converter level.** For the records of one thread incarnation (time-ordered), in a mode with an
+/-- **CPU time, thread level.** For the records of one thread incarnation (time-ordered), in a mode with an
 off-CPU indicator and an interval > 0: the cpu deltas attached to all samples emitted for the thread (on-CPU
 samples and first samples of off-CPU groups; rest samples carry 0) plus what is still pending in the thread's
 accumulator equal the running time of the incarnation's bare history — also when groups are dropped for lack
 of a stored stack (the delta then stays pending and goes to the next sample) — and no checked arithmetic fails. -/
-theorem C12_conv_cpu_partial (s : Conv.St) (hi : 0 < s.cfg.interval) (hoc : s.cfg.offCpu.isSome = true) (pid tid h : Nat)
+theorem C12_thread_cpu (s : Conv.St) (hi : 0 < s.cfg.interval) (hoc : s.cfg.offCpu.isSome = true) (pid tid h : Nat)
     (rs : List TRec) (ho : TOrdered s.cfg (none, H.init) rs) :
     cpuSum (threadRun s pid tid h rs).out + (threadRun s pid tid h rs).th.cs.onAcc
       = (spec (timed s.cfg rs)).running ∧ (threadRun s pid tid h rs).safe = true := by
@@ -191,14 +192,14 @@ theorem C12_conv_cpu_partial (s : Conv.St) (hi : 0 < s.cfg.interval) (hoc : s.cf
   rw [← threadSpec_eq]
   exact h1
 
-/-- **Off-CPU time, converter level**, with the dropped-group caveat as a proven characterisation: the units
+/-- **Off-CPU time, thread level**, with the dropped-group caveat as a proven characterisation: the units
 (sample counts) of the groups that were turned into samples (`units`) plus the units of the groups dropped at a
 wake-up without a stored off-CPU stack (`dropped`; `threadStep` adds to it exactly then) account, together with
 the carried remainder (< interval) and the still open sleep, for the sleeping time of the incarnation's bare
 history; and unless a group of more than 2^31 units occurred (`sat`, the `i32` saturation), the weights of the
 emitted off-CPU samples add up to `units · off_cpu_weight_per_sample`. So sleeping time is lost from the profile
 exactly through `dropped` (and through `sat`). -/
-theorem C12_conv_offcpu_partial (s : Conv.St) (hi : 0 < s.cfg.interval) (hoc : s.cfg.offCpu.isSome = true)
+theorem C12_thread_offcpu (s : Conv.St) (hi : 0 < s.cfg.interval) (hoc : s.cfg.offCpu.isSome = true)
     (pid tid h : Nat) (rs : List TRec) (ho : TOrdered s.cfg (none, H.init) rs) :
     let r := threadRun s pid tid h rs
     r.th.cs.offAcc < s.cfg.interval ∧
@@ -213,6 +214,88 @@ theorem C12_conv_offcpu_partial (s : Conv.St) (hi : 0 < s.cfg.interval) (hoc : s
   have key := tinv_offcpu hinv
   rw [← threadSpec_eq]
   exact key
+
+/-! ### Converter level: `Conv.run cfg rs`
+
+The thread-level theorems above are about `threadRun` — the thread-level functions iterated over the records of
+one thread incarnation. `Conv.thread_of_run` (`Lemmas/ConvCsRun.lean`, built on the observation lemmas of
+`Lemmas/ConvObs.lean`) is the binding invariant that lifts them to whole conversions: along `Conv.run cfg rs` the
+thread object bound to (pid, tid) is carried unchanged between the records of an incarnation — `lastTs`,
+`context_switch_data` and `off_cpu_stack` are rewritten only by `commitThread` with the result of the thread-level
+function on exactly that object (on-demand creation, renames, FORKs, MMAP2 records, `--reuse-threads` recycling and
+the records of every other thread leave the triple alone), are reset to `Thread::new` defaults by the EXIT / EXEC
+that ends the incarnation (its own, or its process's main thread's) — and the samples emitted for it are appended to
+the buffer of its process, tagged with its tid.
+
+Quantifier: every configuration and **every record history**. `curRecs cfg pid tid rs` are the records that reach
+the thread object of (pid, tid) since the last EXIT / EXEC that ended an incarnation of it (`trecs` = all of them
+when the history has no EXIT / EXEC: `C12_conv_no_cut`); the samples of the current incarnation are the *last*
+samples buffered for (pid, tid) — an earlier incarnation of a non-main thread leaves its samples in front of them in
+the same buffer, a main thread's EXIT / EXEC parks the whole buffer. Since the statement holds after every prefix of
+a history, it covers every incarnation at the moment it ends. -/
+
+/-- the samples `Conv.run cfg rs` holds for the current incarnation of thread (pid, tid), the thread's
+context-switch data, and the thread run over the incarnation's own records -/
+theorem C12_conv_binding (cfg : Config) (rs : List Conv.Rec) (pid tid : Nat) :
+    (∃ old cur, threadBuf (Conv.run cfg rs) pid tid = old ++ cur ∧
+      cur.map esamp = (threadRun (Conv.St.init cfg) pid tid 0 (curRecs cfg pid tid rs)).out.map esamp) ∧
+    threadCs (Conv.run cfg rs) pid tid = (threadRun (Conv.St.init cfg) pid tid 0 (curRecs cfg pid tid rs)).th.cs ∧
+    ((Conv.run cfg rs).bad = false →
+      (threadRun (Conv.St.init cfg) pid tid 0 (curRecs cfg pid tid rs)).safe = true) := by
+  have h := thread_of_run cfg rs pid tid
+  refine ⟨?_, ?_, h.safe⟩
+  · obtain ⟨olde, hold⟩ := h.buf
+    obtain ⟨lo, lc, e1, e2⟩ := split_of_map_suffix esamp _ _ _ hold
+    exact ⟨lo, lc, e1, e2⟩
+  · unfold threadCs
+    rw [h.tq]; rfl
+
+/-- without EXIT / EXEC records the current incarnation is the thread's whole history -/
+theorem C12_conv_no_cut (cfg : Config) (rs : List Conv.Rec) (hcut : ConvSpec.CsSpec.hasCut rs = false)
+    (pid tid : Nat) : curRecs cfg pid tid rs = trecs cfg pid tid rs :=
+  curRecs_nocut cfg pid tid rs hcut
+
+/-- **CPU time, converter level.** For every configuration with an off-CPU indicator and an interval > 0, every
+record history, and every thread (pid, tid) whose current incarnation's records are time-ordered: the cpu deltas of
+the samples `Conv.run cfg rs` buffered for that incarnation (`cur`: the last samples buffered for the thread —
+on-CPU samples and first samples of off-CPU groups; rest samples carry 0) plus what is still pending in the
+thread's accumulator equal the running time of the incarnation's bare history. -/
+theorem C12_conv_cpu (cfg : Config) (rs : List Conv.Rec) (hi : 0 < cfg.interval) (hoc : cfg.offCpu.isSome = true)
+    (pid tid : Nat) (ho : TOrdered cfg (none, H.init) (curRecs cfg pid tid rs)) :
+    ∃ old cur, threadBuf (Conv.run cfg rs) pid tid = old ++ cur ∧
+      cpuSum cur + (threadCs (Conv.run cfg rs) pid tid).onAcc
+        = (spec (timed cfg (curRecs cfg pid tid rs))).running := by
+  obtain ⟨⟨old, cur, e1, b1⟩, b2, _⟩ := C12_conv_binding cfg rs pid tid
+  have h := (C12_thread_cpu (Conv.St.init cfg) hi hoc pid tid 0 (curRecs cfg pid tid rs) ho).1
+  refine ⟨old, cur, e1, ?_⟩
+  rw [cpuSum_esamp b1, b2]
+  exact h
+
+/-- **Off-CPU time, converter level**, with the dropped-group caveat as a proven characterisation (`units` /
+`dropped` / `sat` are the ghost counters of the thread run over the incarnation's records: a group's units go to
+`dropped` exactly when no off-CPU stack was stored at the wake-up, `sat` is set exactly when a group stood for more
+than 2^31 samples): accounted units, the carried remainder (< interval) and the still open sleep add up to the
+sleeping time of the incarnation's bare history, and unless `sat` the weights of the off-CPU samples buffered for
+the incarnation by `Conv.run cfg rs` add up to `units · off_cpu_weight_per_sample`. -/
+theorem C12_conv_offcpu (cfg : Config) (rs : List Conv.Rec) (hi : 0 < cfg.interval)
+    (hoc : cfg.offCpu.isSome = true) (pid tid : Nat)
+    (ho : TOrdered cfg (none, H.init) (curRecs cfg pid tid rs)) :
+    let r := threadRun (Conv.St.init cfg) pid tid 0 (curRecs cfg pid tid rs)
+    (threadCs (Conv.run cfg rs) pid tid).offAcc < cfg.interval ∧
+    (r.units + r.dropped) * cfg.interval + (threadCs (Conv.run cfg rs) pid tid).offAcc
+      + (match (spec (timed cfg (curRecs cfg pid tid rs))).last, (spec (timed cfg (curRecs cfg pid tid rs))).sleepStart with
+         | some (now, false), some s0 => now - s0
+         | _, _ => 0)
+      = (spec (timed cfg (curRecs cfg pid tid rs))).sleeping ∧
+    (r.sat = false → ∃ old cur, threadBuf (Conv.run cfg rs) pid tid = old ++ cur ∧
+      offWeight cur = r.units * cfg.offWeight) := by
+  intro r
+  obtain ⟨⟨old, cur, e1, b1⟩, b2, _⟩ := C12_conv_binding cfg rs pid tid
+  obtain ⟨h1, h2, h3⟩ := C12_thread_offcpu (Conv.St.init cfg) hi hoc pid tid 0 (curRecs cfg pid tid rs) ho
+  rw [b2]
+  refine ⟨h1, h2, fun hs => ⟨old, cur, e1, ?_⟩⟩
+  rw [offWeight_esamp b1]
+  exact h3 hs
 
 /-! ### Non-vacuity: the history of the repo's own unit test satisfies the hypotheses, and the
 conclusions are the numbers that test asserts. -/
@@ -229,7 +312,7 @@ example : (run 10 C12_testHistory).handed = 30 ∧ (spec C12_testHistory).runnin
 example : (step 10 (run 10 (C12_testHistory.take 4)).st .consume).2.2 = some 10 := by decide
 
 /-- the same history at converter level (every switch-out announced by a `sched_switch` sample): the hypotheses
-of `C12_conv_*_partial` hold and the emitted samples are the ones the repo's test expects
+of `C12_thread_*` / `C12_conv_*` hold and the emitted samples are the ones the repo's test expects
 (time, weight, cpu delta, synthesized) -/
 def C12_convHistory : List TRec :=
   [.switchIn 0, .sched 3 [], .switchOut 3, .switchIn 5, .sample 12 0 [], .sched 13 [], .switchOut 13, .switchIn 15,
@@ -242,3 +325,23 @@ example : TOrdered C12_convSt.cfg (none, H.init) C12_convHistory := by decide
 example : ((threadRun C12_convSt 1 2 0 C12_convHistory).out.map (fun u => (u.t, u.weight, u.cpu, u.synth))) =
     [(12, 1, 10, false), (24, 1, 4, true), (37, 1, 3, true), (47, 1, 0, true), (51, 1, 3, false), (61, 1, 10, false)] := by
   decide
+
+
+/-- the same history as records of a conversion (pid 1, tid 2; another thread's records in between): the hypotheses of
+`C12_conv_cpu` / `C12_conv_offcpu` hold, and the buffer of the run holds the expected samples -/
+def C12_runHistory : List Conv.Rec :=
+  [.switchIn 1 2 0, .sched 1 2 3 false 0 [], .switchOut 1 2 3, .sample 1 3 4 false 0 0 [], .switchIn 1 2 5,
+   .sample 1 2 12 false 0 0 [], .sched 1 2 13 false 0 [], .switchOut 1 2 13, .switchIn 1 2 15]
+
+def C12_runCfg : Conv.Config := { offCpu := some .contextSwitches, interval := 10 }
+
+example : ConvSpec.CsSpec.hasCut C12_runHistory = false ∧
+    TOrdered C12_runCfg (none, H.init) (curRecs C12_runCfg 1 2 C12_runHistory) := by decide
+/-- with an EXIT of the thread in between, the current incarnation starts after it (and its hypothesis holds) -/
+example : curRecs C12_runCfg 1 2 (C12_runHistory ++ [.exit 1 2 20, .switchIn 1 2 30, .sample 1 2 35 false 0 0 []]) =
+      [.switchIn 30, .sample 35 0 [Conv.SFrame.ip 0 false]] ∧
+    (threadBuf (Conv.run C12_runCfg (C12_runHistory ++ [.exit 1 2 20, .switchIn 1 2 30, .sample 1 2 35 false 0 0 []])) 1 2).map
+      (fun u => (u.t, u.cpu)) = [(12, 10), (35, 5)] := by decide
+example : (threadBuf (Conv.run C12_runCfg C12_runHistory) 1 2).map (fun u => (u.t, u.cpu, u.synth)) = [(12, 10, false)] ∧
+    (threadCs (Conv.run C12_runCfg C12_runHistory) 1 2).onAcc = 1 ∧
+    (spec (timed C12_runCfg (trecs C12_runCfg 1 2 C12_runHistory))).running = 11 := by decide
